@@ -272,6 +272,9 @@ func (w *World) Step(i int, st M) (M, error) {
 				break
 			}
 		}
+		if gets(req, "k") == "Custom" {
+			req["dig"] = w.bodies.canon(geti(req, "len"), geti(req, "dig"))
+		}
 		if gets(req, "k") == "PingResp" && mhas(req, "ref") {
 			w.resolvePing(c, req)
 		}
